@@ -351,7 +351,9 @@ pub fn compare(imp: &str, model: &str, p: &Proj) -> Option<(String, bool)> {
                 if sentinel_m {
                     compare_r(&a, &b, p).map(|w| (format!("unknown path: {}", w), false))
                 } else {
-                    None
+                    // executed as the instruction it encodes: in particular it does not halt or touch
+                    // the interrupt state unless that instruction says so
+                    compare_r(&a, &b, &Proj { ctl: p.ctl, ..NONE }).map(|w| (format!("executed path: {}", w), false))
                 }
             }
         }
